@@ -45,3 +45,15 @@ func Malleate(sig glow.Signature) glow.Signature {
 	s.FillBytes(out[32:])
 	return out
 }
+
+// MirrorKey returns the private key n-d: a different key whose public point has the same x coordinate
+// as d's (and the other parity). The code base identifies a key by its x coordinate and fixes the parity,
+// so a signature made with the mirror key must not verify under the public key of d.
+func MirrorKey(priv glow.PrivateKey) glow.PrivateKey {
+	n := crypto.S256().Params().N
+	d := new(big.Int).SetBytes(priv[:])
+	m := new(big.Int).Sub(n, d)
+	var out glow.PrivateKey
+	m.FillBytes(out[:])
+	return out
+}
